@@ -310,6 +310,63 @@ def multiclock(rng):
             'clocks': ['clk', 'slow_clk', 'clk2']}
 
 
+def nested_names(rng):
+    """two hierarchy levels of user blocks whose local wires, ports and instances draw their names from ONE small pool: a local
+    wire of a stage is called like the parent-scope wire bound to one of its ports, like a port of the parent, like an instance"""
+    import py4hw
+    hw = py4hw.HWSystem()
+    w = rng.choice([2, 3, 4])
+    pool = ['t', 'd', 'q', 'a', 'x', 'link', 's']
+
+    class Stage(py4hw.Logic):
+        def __init__(self, parent, name, a, q, kinds):
+            super().__init__(parent, name)
+            self.addIn(rng.choice(['a', 'd', 'x']), a)
+            self.addOut(rng.choice(['q', 's', 'link']), q)
+            prev = a
+            used = set()
+            for k, kind in enumerate(kinds):
+                if k == len(kinds) - 1:
+                    nxt = q
+                else:
+                    nm = rng.choice([n for n in pool if n not in used] or ['m%d' % k])
+                    used.add(nm)
+                    nxt = self.wire(nm, w)
+                inst = rng.choice([n for n in pool if n not in self.children] or ['u%d' % k])
+                if kind == 'Not':
+                    py4hw.Not(self, inst, prev, nxt)
+                elif kind == 'Reg':
+                    py4hw.Reg(self, inst, prev, nxt)
+                else:
+                    py4hw.Add(self, inst, prev, a, nxt)
+                prev = nxt
+
+    class Top(py4hw.Logic):
+        def __init__(self, parent, name, a, y):
+            super().__init__(parent, name)
+            self.addIn(rng.choice(['a', 'x', 'd']), a)
+            self.addOut(rng.choice(['q', 'y', 's']), y)
+            n = rng.randint(2, 3)
+            prev = a
+            used = set()
+            for k in range(n):
+                if k == n - 1:
+                    nxt = y
+                else:
+                    nm = rng.choice([x for x in pool if x not in used] or ['l%d' % k])
+                    used.add(nm)
+                    nxt = self.wire(nm, w)
+                inst = rng.choice([x for x in pool if x not in self.children] or ['st%d' % k])
+                Stage(self, inst, prev, nxt, [rng.choice(['Not', 'Reg', 'Add']) for _ in range(rng.randint(2, 3))])
+                prev = nxt
+    a, y = hw.wire(rng.choice(['a', 't', 'x']), w), hw.wire(rng.choice(['y', 'q', 't2']), w)
+    top = Top(hw, 'top', a, y)
+    pin = [(p.name, p.wire) for p in top.inPorts]
+    pout = [(p.name, p.wire) for p in top.outPorts]
+    return {'name': 'nested user blocks with shared names (w=%d)' % w, 'hw': hw, 'top': top, 'ins': pin, 'outs': pout, 'seq': True,
+            'kind': 'nested-names'}
+
+
 def emit(top, whole=True):
     import py4hw
     with quiet():
